@@ -1,20 +1,25 @@
 /-
   C10 — dd / qd results are normalised and within their documented error bounds.
 
-  What is PROVED here (every format with `p ≥ 2`, every operand, on the model of UVerif.Model.DD — the
-  statement sequence of dd_impl.hpp over Model.F64):
-    * the exactness clauses: the dd sum of two doubles is exact with a correctly rounded head, `x − x = 0`;
+  What is PROVED here (on the model of UVerif.Model.DD — the statement sequence of dd_impl.hpp over Model.F64):
+    * weak normalisation `|lo| ≤ ulp(hi)` of dd `+ − ×` (what the closing three_sum guarantees; `p ≥ 6`);
+    * a relative error bound `3·2^(−2p)` for dd `+ −`;
+    * the exactness clauses: the dd sum and product of two doubles are exact with a correctly rounded head, `x − x = 0`,
+      multiplication by a power of two is exact (subnormal tails included);
     * special values: NaN and infinity propagation of `+ − × ÷` like doubles — and the two places where the
       pinned code does NOT behave like doubles (finite/inf, sqrt(+inf), x/0 sign), as counterexample theorems;
     * the property's normalisation clause `|lo| ≤ ½ulp(hi)` is FALSE of the pinned code (D21): counterexample
       theorems by evaluation of the model at the witnesses replayed in every run.
   What is NOT proved: the numeric error constants k·2^-106 / k·2^-212 (measured exactly on rationals for every
-  transcript line; see the tag histogram), `C10_mul_pow2_exact_full` and `C10_dd_weakly_normalised_full` (kept below
-  as `def … : Prop`).
-  Property theorems only; proofs in UVerifProofs/Lemmas/{F64Round,F64Eft,F64Lift,DDLemmas}.lean.
+  transcript line; see the tag histogram) except for the dd sum/difference (`C10_dd_add_error_bound`: 3·2^(−2p)).
+  Property theorems only; proofs in UVerifProofs/Lemmas/{F64Round,F64Eft,F64Lift,F64Split,F64Dekker,F64ProdLift,F64ProdAll,
+  DDLemmas,DDProdAll,DDNorm,DDNormMul,DDNormMulLift}.lean.
 -/
 import UVerifProofs.Lemmas.DDLemmas
 import UVerifProofs.Lemmas.F64ProdLift
+import UVerifProofs.Lemmas.DDNorm
+import UVerifProofs.Lemmas.DDProdAll
+import UVerifProofs.Lemmas.DDNormMulLift
 import UVerif.Spec.F64
 open UVerif UVerif.F64
 
@@ -30,20 +35,24 @@ theorem C10_dd_of_two_doubles_exact (f : Fmt) (ok : f.Ok) (a b : F) (ha : a.Rep 
   DDLemmas.add_of_doubles f ok ha hb hg
 
 /-- the dd PRODUCT of two doubles (`dd(a) * dd(b)` through `dd::operator*=`: two_prod of the heads, two_prods with the
-    zero tails, two three_sums) equals the exact product and its head is the correctly rounded product — for NORMAL
-    doubles, no underflow (`q ≤ ea + eb`), both at most SPLIT_THRESHOLD, three binades of headroom
-    (the guards of `C13_two_prod_partial`; stated in integer units, times `2^q`). -/
-theorem C10_dd_product_of_two_doubles_exact (f : Fmt) (ok : f.Ok) (h4 : 4 ≤ f.p) (a b : F) (ha : a.Rep f) (hb : b.Rep f)
-    (ea eb : Nat)
-    (ha5 : 2 ^ (f.p - 1 + ea) ≤ a.mag) (ha6 : a.mag < 2 ^ (f.p + ea))
-    (hb5 : 2 ^ (f.p - 1 + eb) ≤ b.mag) (hb6 : b.mag < 2 ^ (f.p + eb))
-    (hq : f.q ≤ ea + eb)
-    (htha : a.mag ≤ maxMag f >>> (splitBits f + 1)) (hthb : b.mag ≤ maxMag f >>> (splitBits f + 1))
-    (hrange : 8 * 2 ^ (f.p + ea + (f.p + eb)) ≤ maxMag f * 2 ^ f.q) :
+    zero tails, two three_sums) equals the exact product and its head is the correctly rounded product — for ALL
+    representable doubles (zero, subnormal, normal, below or above SPLIT_THRESHOLD) under the guards of `C13_two_prod`:
+    `|a|, |b| < 2^(top−1)`, no underflow (`q ≤ (size a − p) + (size b − p)`), three binades of headroom below overflow.
+    Stated in integer units, times `2^q`. -/
+theorem C10_dd_product_of_two_doubles_exact (f : Fmt) (ok : f.Ok) (h4 : 4 ≤ f.p)
+    (hfmt : f.p + 2 * (splitBits f + 1) ≤ f.top) (a b : F) (ha : a.Rep f) (hb : b.Rep f)
+    (hla : a.mag < 2 ^ (f.top - 1)) (hlb : b.mag < 2 ^ (f.top - 1))
+    (hq : f.q ≤ (size a.mag - f.p) + (size b.mag - f.p))
+    (hrange : 8 * 2 ^ (size a.mag + size b.mag) ≤ maxMag f * 2 ^ f.q) :
     ((DD.mul f (DD.ofF a) (DD.ofF b)).hi.toInt + (DD.mul f (DD.ofF a) (DD.ofF b)).lo.toInt) * ((2 ^ f.q : Nat) : Int)
       = a.toInt * b.toInt ∧
-    (DD.mul f (DD.ofF a) (DD.ofF b)).hi.toInt * ((2 ^ f.q : Nat) : Int) = rnInt f.p (a.toInt * b.toInt) :=
-  DDLemmas.mul_of_doubles f ok h4 ha hb ha5 ha6 hb5 hb6 hq htha hthb hrange
+    (DD.mul f (DD.ofF a) (DD.ofF b)).hi.toInt * ((2 ^ f.q : Nat) : Int) = rnInt f.p (a.toInt * b.toInt) := by
+  have hp : 1 ≤ f.p := by omega
+  have da : ((2 ^ (size a.mag - f.p) : Nat) : Int) ∣ a.toInt := by
+    rw [F.mag_eq_natAbs]; exact isFloat_quantum_dvd hp ha.2
+  have db : ((2 ^ (size b.mag - f.p) : Nat) : Int) ∣ b.toInt := by
+    rw [F.mag_eq_natAbs]; exact isFloat_quantum_dvd hp hb.2
+  exact DDLemmas.mul_of_doubles_all f ok h4 hfmt ha hb hla hlb da db hq hrange
 
 /-- the free function `add(double, double)` (a single two_sum): exact for `|a| + |b| ≤ maxMag`. -/
 theorem C10_add_d2_exact (f : Fmt) (ok : f.Ok) (a b : F) (ha : a.Rep f) (hb : b.Rep f)
@@ -59,18 +68,16 @@ theorem C10_add_d2_exact (f : Fmt) (ok : f.Ok) (a b : F) (ha : a.Rep f) (hb : b.
   simp only [hna, hnb, Bool.or_self, Bool.false_eq_true, if_false]
   exact ⟨h.2.2.1, h.2.2.2⟩
 
-/-- the free function `mul(double, double)` (a single two_prod): the dd product of two NORMAL doubles is exact and
-    its head is the correctly rounded product — no underflow (`q ≤ ea + eb`), both factors at most SPLIT_THRESHOLD,
-    three binades of headroom below overflow (see `C13_two_prod_partial`). -/
-theorem C10_mul_d2_exact (f : Fmt) (ok : f.Ok) (h4 : 4 ≤ f.p) (a b : F) (ha : a.Rep f) (hb : b.Rep f) (ea eb : Nat)
-    (ha5 : 2 ^ (f.p - 1 + ea) ≤ a.mag) (ha6 : a.mag < 2 ^ (f.p + ea))
-    (hb5 : 2 ^ (f.p - 1 + eb) ≤ b.mag) (hb6 : b.mag < 2 ^ (f.p + eb))
-    (hq : f.q ≤ ea + eb)
-    (htha : a.mag ≤ maxMag f >>> (splitBits f + 1)) (hthb : b.mag ≤ maxMag f >>> (splitBits f + 1))
-    (hrange : 8 * 2 ^ (f.p + ea + (f.p + eb)) ≤ maxMag f * 2 ^ f.q) :
+/-- the free function `mul(double, double)` (a single two_prod): exact with a correctly rounded head, ALL representable
+    operands, guards of `C13_two_prod`. -/
+theorem C10_mul_d2_exact (f : Fmt) (ok : f.Ok) (h4 : 4 ≤ f.p) (hfmt : f.p + 2 * (splitBits f + 1) ≤ f.top)
+    (a b : F) (ha : a.Rep f) (hb : b.Rep f)
+    (hla : a.mag < 2 ^ (f.top - 1)) (hlb : b.mag < 2 ^ (f.top - 1))
+    (hq : f.q ≤ (size a.mag - f.p) + (size b.mag - f.p))
+    (hrange : 8 * 2 ^ (size a.mag + size b.mag) ≤ maxMag f * 2 ^ f.q) :
     ((DD.mulDD f a b).hi.toInt + (DD.mulDD f a b).lo.toInt) * ((2 ^ f.q : Nat) : Int) = a.toInt * b.toInt ∧
     (DD.mulDD f a b).hi.toInt * ((2 ^ f.q : Nat) : Int) = rnInt f.p (a.toInt * b.toInt) := by
-  have h := twoProd_spec f ok h4 ha hb ha5 ha6 hb5 hb6 hq htha hthb hrange
+  have h := twoProd_spec_all f ok h4 hfmt ha hb hla hlb hq hrange
   have hna : a.isNaN = false := by
     have := ha.1; cases a <;> simp_all [F.isFinite, F.isNaN]
   have hnb : b.isNaN = false := by
@@ -86,50 +93,104 @@ theorem C10_sub_self (f : Fmt) (ok : f.Ok) (x : DD.DD) (hh : x.hi.Rep f) (hl : x
     (DD.sub f x x).hi.isFinite = true ∧ (DD.sub f x x).lo.isFinite = true :=
   DDLemmas.sub_self f ok hh hl hmh hml
 
-/-- multiplication of a dd value by `(±2^k, 0)` is exact — PARTIAL: head and tail of `x` NORMAL doubles (a zero tail
-    is `C10_dd_product_of_two_doubles_exact`), no underflow of the tail product (`q ≤ el + ec`), all three doubles at
-    most SPLIT_THRESHOLD, three binades of headroom below overflow.  Stated in integer units, times `2^q`. -/
-theorem C10_mul_pow2_exact_partial (f : Fmt) (ok : f.Ok) (h4 : 4 ≤ f.p) (x : DD.DD) (c : F)
-    (hh : x.hi.Rep f) (hl : x.lo.Rep f) (hc : c.Rep f) (eh el ec : Nat)
-    (hh5 : 2 ^ (f.p - 1 + eh) ≤ x.hi.mag) (hh6 : x.hi.mag < 2 ^ (f.p + eh))
-    (hl5 : 2 ^ (f.p - 1 + el) ≤ x.lo.mag) (hl6 : x.lo.mag < 2 ^ (f.p + el)) (hle : el ≤ eh)
-    (hcm : c.mag = 2 ^ (f.p - 1 + ec)) (hq : f.q ≤ el + ec)
-    (hthh : x.hi.mag ≤ maxMag f >>> (splitBits f + 1)) (hthl : x.lo.mag ≤ maxMag f >>> (splitBits f + 1))
-    (hthc : c.mag ≤ maxMag f >>> (splitBits f + 1))
-    (hrange : 8 * 2 ^ (f.p + eh + (f.p + ec)) ≤ maxMag f * 2 ^ f.q) :
+/-- **multiplication of a dd value by a power of two `(±2^k, 0)` is exact** — every finite dd value: the head any
+    representable double, the tail zero or any representable double (SUBNORMAL tails included), `|lo| ≤ |hi|`.
+    Guards: no underflow of the two limb products (`2^eh ∣ hi`, `q ≤ eh + k`; for a non-zero tail `2^el ∣ lo`,
+    `q ≤ el + k` — with `el = 0` for a subnormal tail this says `2^k ≥ 1` in real terms), `|hi|, |c| < 2^(top−1)`, three
+    binades of headroom below overflow (where the statement is FALSE: `C10_mul_pow2_near_overflow_counterexample`).
+    `c.mag = 2^k` in integer units.  Stated in integer units, times `2^q`. -/
+theorem C10_mul_pow2_exact (f : Fmt) (ok : f.Ok) (h4 : 4 ≤ f.p) (hfmt : f.p + 2 * (splitBits f + 1) ≤ f.top)
+    (x : DD.DD) (c : F) (hh : x.hi.Rep f) (hl : x.lo.Rep f) (hc : c.Rep f) (eh el k : Nat)
+    (hlh : x.hi.mag < 2 ^ (f.top - 1)) (hlc : c.mag < 2 ^ (f.top - 1)) (hlo : x.lo.mag ≤ x.hi.mag)
+    (dh : ((2 ^ eh : Nat) : Int) ∣ x.hi.toInt) (hcm : c.mag = 2 ^ k) (hqh : f.q ≤ eh + k)
+    (hlow : x.lo.toInt = 0 ∨ (((2 ^ el : Nat) : Int) ∣ x.lo.toInt ∧ f.q ≤ el + k))
+    (hrange : 8 * 2 ^ (size x.hi.mag + size c.mag) ≤ maxMag f * 2 ^ f.q) :
     ((DD.mul f x (DD.ofF c)).hi.toInt + (DD.mul f x (DD.ofF c)).lo.toInt) * ((2 ^ f.q : Nat) : Int)
       = (x.hi.toInt + x.lo.toInt) * c.toInt :=
-  DDLemmas.mul_pow2 f ok h4 hh hl hc hh5 hh6 hl5 hl6 hle hcm hq hthh hthl hthc hrange
+  DDLemmas.mul_pow2_all f ok h4 hfmt hh hl hc hlh hlc hlo dh hcm hqh hlow hrange
 
 set_option exponentiation.threshold 5000 in
 set_option maxRecDepth 100000 in
-/-- non-vacuity of `C10_mul_pow2_exact_partial`: x = (1 + 2^-52, 2^-54·1.5), c = 2^10 in binary64. -/
+/-- non-vacuity of `C10_mul_pow2_exact` with a SUBNORMAL tail: x = (2^-1021·(1+2^-52), 3·2^-1074), c = 2^10 (binary64). -/
 example :
-    let x : DD.DD := ⟨ofBits64 0x3ff0000000000001, ofBits64 0x3c98000000000000⟩
+    let x : DD.DD := ⟨ofBits64 0x0020000000000001, ofBits64 0x0000000000000003⟩
     let c := ofBits64 0x4090000000000000
-    2 ^ (53 - 1 + 1022) ≤ x.hi.mag ∧ x.hi.mag < 2 ^ (53 + 1022) ∧ 2 ^ (53 - 1 + 968) ≤ x.lo.mag ∧ x.lo.mag < 2 ^ (53 + 968) ∧
-    c.mag = 2 ^ (53 - 1 + 1032) ∧ binary64.q ≤ 968 + 1032 ∧
-    8 * 2 ^ (53 + 1022 + (53 + 1032)) ≤ maxMag binary64 * 2 ^ binary64.q ∧
-    (DD.mul binary64 x (DD.ofF c)).lo = ofBits64 0x3d38000000000000 := by
+    x.hi.mag < 2 ^ (binary64.top - 1) ∧ c.mag < 2 ^ (binary64.top - 1) ∧ x.lo.mag ≤ x.hi.mag ∧
+    ((2 ^ 1 : Nat) : Int) ∣ x.hi.toInt ∧ c.mag = 2 ^ 1084 ∧ binary64.q ≤ 1 + 1084 ∧
+    ((2 ^ 0 : Nat) : Int) ∣ x.lo.toInt ∧ binary64.q ≤ 0 + 1084 ∧
+    8 * 2 ^ (size x.hi.mag + size c.mag) ≤ maxMag binary64 * 2 ^ binary64.q ∧
+    (DD.mul binary64 x (DD.ofF c)).lo = ofBits64 0x0000000000000400 := by
   decide
 
-/-- multiplication by a power of two is exact — full statement, NOT proved (the head product is covered by
-    `C13_two_prod_partial`; the tail `x.lo` may be subnormal, where the bit-width half of Veltkamp's theorem is not
-    proved; checked on every `dd mul … 2^k` transcript line instead, and FALSE near overflow:
-    `C10_mul_pow2_near_overflow_counterexample`). -/
-def C10_mul_pow2_exact_full : Prop :=
-  ∀ (f : Fmt), f.Ok → ∀ (x : DD.DD) (k : Nat) (s : Bool), x.hi.Rep f → x.lo.Rep f →
-    8 * x.hi.mag * 2 ^ k ≤ maxMag f →
-    (DD.mul f x (DD.ofF (.fin s (2 ^ (k + f.q))))).hi.toInt + (DD.mul f x (DD.ofF (.fin s (2 ^ (k + f.q))))).lo.toInt
-      = (x.hi.toInt + x.lo.toInt) * (if s then -(2 ^ k : Int) else (2 ^ k : Int))
+/-- **weak normalisation of the dd sum and difference** — what the closing three_sum of `dd::operator+=` / `-=`
+    guarantees: for normalised operands (`2|lo| ≤ ulp(hi)`), every format with `p ≥ 6`, no overflow
+    (`16·(|a.hi|+|a.lo|+|b.hi|+|b.lo|) ≤ maxMag`; underflow is harmless for + and −):  `|lo| ≤ ulp(hi)`.
+    Massive cancellation of the heads and subnormal values are included.  (The property's `|lo| ≤ ½ulp(hi)` is false:
+    `C10_dd_add_strict_normalisation_counterexample`.) -/
+theorem C10_dd_weakly_normalised (f : Fmt) (ok : f.Ok) (h6 : 6 ≤ f.p) (a b : DD.DD)
+    (hah : a.hi.Rep f) (hal : a.lo.Rep f) (hbh : b.hi.Rep f) (hbl : b.lo.Rep f)
+    (na : 2 * a.lo.mag ≤ ulpNat f.p a.hi.mag) (nb : 2 * b.lo.mag ≤ ulpNat f.p b.hi.mag)
+    (hg : 16 * (a.hi.mag + a.lo.mag + b.hi.mag + b.lo.mag) ≤ maxMag f) :
+    (DD.add f a b).lo.mag ≤ ulpNat f.p (DD.add f a b).hi.mag ∧
+    (DD.sub f a b).lo.mag ≤ ulpNat f.p (DD.sub f a b).hi.mag :=
+  ⟨DD_add_weak f ok h6 hah hal hbh hbl na nb hg, DD_sub_weak f ok h6 hah hal hbh hbl na nb hg⟩
 
-/-- what the closing three_sum does guarantee — full statement, NOT proved (measured: the transcript classes
-    `dd.<op>.weakly_normalised` accept exactly `ulp(hi)/2 < |lo| ≤ ulp(hi)`; anything worse is a violation). -/
-def C10_dd_weakly_normalised_full : Prop :=
-  ∀ (f : Fmt), f.Ok → ∀ (a b : DD.DD), a.hi.Rep f → a.lo.Rep f → b.hi.Rep f → b.lo.Rep f →
-    2 * a.lo.mag ≤ ulpNat f.p a.hi.mag → 2 * b.lo.mag ≤ ulpNat f.p b.hi.mag →
-    4 * (a.hi.mag + b.hi.mag) ≤ maxMag f →
-    (DD.add f a b).lo.mag ≤ ulpNat f.p (DD.add f a b).hi.mag
+/-- **proved relative-error bound for the dd sum and difference**: for normalised operands, `p ≥ 6`, no overflow:
+    `|exact − (hi + lo)| ≤ 3·2^(−2p)·|exact|` — i.e. 3·2^-106 for binary64 — whatever the cancellation between the
+    operands (the error is the discarded third output of the closing three_sum plus the rounding of the second-order
+    term `t1' + t2`; underflow is harmless).  Stated without division: `2^p·2^p·|err| ≤ 3·|exact|` in integer units. -/
+theorem C10_dd_add_error_bound (f : Fmt) (ok : f.Ok) (h6 : 6 ≤ f.p) (a b : DD.DD)
+    (hah : a.hi.Rep f) (hal : a.lo.Rep f) (hbh : b.hi.Rep f) (hbl : b.lo.Rep f)
+    (na : 2 * a.lo.mag ≤ ulpNat f.p a.hi.mag) (nb : 2 * b.lo.mag ≤ ulpNat f.p b.hi.mag)
+    (hg : 16 * (a.hi.mag + a.lo.mag + b.hi.mag + b.lo.mag) ≤ maxMag f) :
+    2 ^ f.p * (2 ^ f.p * (a.hi.toInt + a.lo.toInt + b.hi.toInt + b.lo.toInt
+        - ((DD.add f a b).hi.toInt + (DD.add f a b).lo.toInt)).natAbs)
+      ≤ 3 * (a.hi.toInt + a.lo.toInt + b.hi.toInt + b.lo.toInt).natAbs ∧
+    2 ^ f.p * (2 ^ f.p * (a.hi.toInt + a.lo.toInt - (b.hi.toInt + b.lo.toInt)
+        - ((DD.sub f a b).hi.toInt + (DD.sub f a b).lo.toInt)).natAbs)
+      ≤ 3 * (a.hi.toInt + a.lo.toInt - (b.hi.toInt + b.lo.toInt)).natAbs :=
+  ⟨DD_add_err f ok h6 hah hal hbh hbl na nb hg, DD_sub_err f ok h6 hah hal hbh hbl na nb hg⟩
+
+/-- the same on integer units, no magnitude hypothesis. -/
+theorem C10_dd_add_error_bound_int (p : Nat) (hp6 : 6 ≤ p) (A a B b : Int)
+    (hA : IsFloat p A) (ha : IsFloat p a) (hB : IsFloat p B) (hb : IsFloat p b)
+    (na : 2 * a.natAbs ≤ Q p A) (nb : 2 * b.natAbs ≤ Q p B) :
+    2 ^ p * (2 ^ p * (A + a + B + b - ((ddAddInt p A a B b).1 + (ddAddInt p A a B b).2)).natAbs)
+      ≤ 3 * (A + a + B + b).natAbs :=
+  ddAddInt_err hp6 hA ha hB hb na nb
+
+/-- the integer-unit form: no magnitude hypothesis at all (no upper exponent bound). -/
+theorem C10_dd_weakly_normalised_int (p : Nat) (hp6 : 6 ≤ p) (A a B b : Int)
+    (hA : IsFloat p A) (ha : IsFloat p a) (hB : IsFloat p B) (hb : IsFloat p b)
+    (na : 2 * a.natAbs ≤ Q p A) (nb : 2 * b.natAbs ≤ Q p B) :
+    (ddAddInt p A a B b).2.natAbs ≤ Q p (ddAddInt p A a B b).1 :=
+  ddAddInt_weak hp6 hA ha hB hb na nb
+
+/-- **weak normalisation of the dd product** — what the closing three_sum of `dd::operator*=` guarantees: for
+    normalised operands (`2|lo| ≤ ulp(hi)`), every format with `p ≥ 6` and room for the rescaled split,
+    `|a.hi|, |b.hi| < 2^(top−1)`, six binades of headroom below overflow, and for each of the four partial products
+    `hi·hi, hi·lo, lo·hi, lo·lo` either a factor is zero or the product does not underflow
+    (`q ≤ (size x − p) + (size y − p)`):  `|lo| ≤ ulp(hi)`.  Zero, subnormal and normal limbs, below or above
+    SPLIT_THRESHOLD. -/
+theorem C10_dd_mul_weakly_normalised (f : Fmt) (ok : f.Ok) (h6 : 6 ≤ f.p) (hfmt : f.p + 2 * (splitBits f + 1) ≤ f.top)
+    (a b : DD.DD) (hah : a.hi.Rep f) (hal : a.lo.Rep f) (hbh : b.hi.Rep f) (hbl : b.lo.Rep f)
+    (na : 2 * a.lo.mag ≤ ulpNat f.p a.hi.mag) (nb : 2 * b.lo.mag ≤ ulpNat f.p b.hi.mag)
+    (hla : a.hi.mag < 2 ^ (f.top - 1)) (hlb : b.hi.mag < 2 ^ (f.top - 1))
+    (qhh : a.hi.toInt = 0 ∨ b.hi.toInt = 0 ∨ f.q ≤ (size a.hi.mag - f.p) + (size b.hi.mag - f.p))
+    (qhl : a.hi.toInt = 0 ∨ b.lo.toInt = 0 ∨ f.q ≤ (size a.hi.mag - f.p) + (size b.lo.mag - f.p))
+    (qlh : a.lo.toInt = 0 ∨ b.hi.toInt = 0 ∨ f.q ≤ (size a.lo.mag - f.p) + (size b.hi.mag - f.p))
+    (qll : a.lo.toInt = 0 ∨ b.lo.toInt = 0 ∨ f.q ≤ (size a.lo.mag - f.p) + (size b.lo.mag - f.p))
+    (hrange : 64 * 2 ^ (size a.hi.mag + size b.hi.mag) ≤ maxMag f * 2 ^ f.q) :
+    (DD.mul f a b).lo.mag ≤ ulpNat f.p (DD.mul f a b).hi.mag :=
+  DD_mul_weak f ok h6 hfmt hah hal hbh hbl na nb hla hlb qhh qhl qlh qll hrange
+
+/-- the integer-unit core of it: the closing three_sum of the product receives a second-order third input. -/
+theorem C10_dd_mul_weakly_normalised_int (p : Nat) (hp6 : 6 ≤ p) (p0 p1 p2 p3 p4 p5 p6 q4 : Int)
+    (h0 : p0 = rnInt p (p0 + p1)) (h2 : p2 = rnInt p (p2 + p4)) (h3 : p3 = rnInt p (p3 + p5)) (h6 : p6 = rnInt p q4)
+    (r2 : 2 ^ p * (p2 + p4).natAbs ≤ (p0 + p1).natAbs) (r3 : 2 ^ p * (p3 + p5).natAbs ≤ (p0 + p1).natAbs)
+    (r4 : 2 ^ p * q4.natAbs ≤ (p2 + p4).natAbs) :
+    (ddMulTail p p0 p1 p2 p3 p4 p5 p6).2.natAbs ≤ Q p (ddMulTail p p0 p1 p2 p3 p4 p5 p6).1 :=
+  ddMulTail_weak hp6 h0 h2 h3 h6 r2 r3 r4
 
 /-! ### special values -/
 
@@ -260,3 +321,13 @@ example :
     (DD.add binary64 (DD.ofF (ofBits64 0x3ff0000000000000)) (DD.ofF (ofBits64 0x3c30000000000000))).hi = ofBits64 0x3ff0000000000000 ∧
     (DD.add binary64 (DD.ofF (ofBits64 0x3ff0000000000000)) (DD.ofF (ofBits64 0x3c30000000000000))).lo = ofBits64 0x3c30000000000000 := by
   decide
+
+set_option exponentiation.threshold 5000 in
+set_option maxRecDepth 100000 in
+/-- non-vacuity: the D21 witness operands satisfy every hypothesis of `C10_dd_weakly_normalised` /
+    `C10_dd_add_error_bound` (binary64), and there the weak bound is attained strictly above `ulp/2`. -/
+example :
+    2 * C10W.a.lo.mag ≤ ulpNat 53 C10W.a.hi.mag ∧ 2 * C10W.b.lo.mag ≤ ulpNat 53 C10W.b.hi.mag ∧
+    16 * (C10W.a.hi.mag + C10W.a.lo.mag + C10W.b.hi.mag + C10W.b.lo.mag) ≤ maxMag binary64 ∧
+    ulpNat 53 (DD.add binary64 C10W.a C10W.b).hi.mag < 2 * (DD.add binary64 C10W.a C10W.b).lo.mag := by decide
+
